@@ -67,6 +67,14 @@ def configs(tier, seed):
                           {"aw": 0, "feat": [], "sparse": False, "name": None, "addr": 0xfc}]})
     # no subordinate at all
     cfgs.append({"aw": 3, "dw": 8, "g": 8, "feat": ALLF, "align": 0, "subs": []})
+    # very wide address buses: small windows at high addresses with low bits set (window starts with more than 53 significant bits)
+    cfgs.append({"aw": 56, "dw": 8, "g": 8, "feat": [], "align": 0,
+                 "subs": [{"aw": 55, "feat": [], "sparse": False, "name": "lo", "addr": None}] +
+                         [{"aw": 1, "feat": [], "sparse": False, "name": f"r{i}", "addr": None} for i in range(4)]})
+    cfgs.append({"aw": 62, "dw": 32, "g": 8, "feat": ["err"], "align": 0,
+                 "subs": [{"aw": 59, "feat": [], "sparse": False, "name": "lo", "addr": None},
+                          {"aw": 2, "feat": ["err"], "sparse": False, "name": None, "addr": (5 << 61) + (1 << 56) + 48},
+                          {"aw": 0, "feat": [], "sparse": False, "name": "one", "addr": (7 << 61) + 4}]})
     # many windows: every number of subordinates from 5 to 17 (fan-in reductions of every shape)
     for nsub in list(range(5, 18)) + ([33] if tier == "thorough" else []):
         cfgs.append({"aw": 8, "dw": 32, "g": 8, "feat": ["err", "stall"], "align": 0,
